@@ -476,7 +476,33 @@ fn long_sequence(rec: &mut Rec, mode: Mode, idx: u64, rng: &mut ChaCha20Rng) {
     }
   };
   check_wrong_len(rec, &mut g);
+  // evaluate everything once on this thread first (whatever per-thread state exists is now warm)
+  if idx % 2 == 0 {
+    for y in 0..=255u8 {
+      let _ = eval1(&g, y);
+    }
+  }
   for (i, &x) in ord.iter().enumerate() {
+    if idx % 2 == 0 && i % 5 == 0 && i < 60 {
+      // this puncture happens on a fresh thread; evaluation continues on ours
+      let _ = eval1(&g, x);
+      let r = std::thread::scope(|s| s.spawn(|| g.puncture(&[x])).join());
+      rec.ev("punctures_on_other_thread");
+      rec.transitions += 1;
+      h.push(x);
+      match r {
+        Ok(Ok(())) if !p[x as usize] => p[x as usize] = true,
+        Ok(Err(_)) if p[x as usize] => {}
+        _ => {
+          rec.violation("puncture-refused", format!("puncture of {} on another thread failed / succeeded unexpectedly", x), json!({"history": h}));
+          return;
+        }
+      }
+      if ex.mode == Mode::Behaviour && !check_table(rec, ex.k, &g, &p, &h, &[x]) {
+        return;
+      }
+      continue;
+    }
     if !ex.step(rec, &mut g, &mut p, &mut h, x) {
       return;
     }
